@@ -68,6 +68,24 @@ pub trait ChainStore: Send + Sync + Sized {
         Some(block)
     }
 
+    /// Get a block that has been moved into the freezer by block header hash
+    ///
+    /// The per-part columns of a frozen block (body, uncles, proposals, extension)
+    /// are wiped out of the key-value store, the part getters fall back to this.
+    fn get_frozen_block(&self, h: &packed::Byte32) -> Option<BlockView> {
+        let freezer = self.freezer()?;
+        let header = self.get_block_header(h)?;
+        if header.number() > 0 && header.number() < freezer.number() {
+            let raw_block = freezer.retrieve(header.number()).ok()??;
+            let raw_block = packed::BlockReader::from_compatible_slice(&raw_block)
+                .ok()?
+                .to_entity();
+            Some(raw_block.into_view())
+        } else {
+            None
+        }
+    }
+
     /// Get header by block header hash
     fn get_block_header(&self, hash: &packed::Byte32) -> Option<HeaderView> {
         if let Some(cache) = self.cache()
@@ -92,16 +110,23 @@ pub trait ChainStore: Send + Sync + Sized {
     /// Get block body by block header hash
     fn get_block_body(&self, hash: &packed::Byte32) -> Vec<TransactionView> {
         let prefix = hash.as_slice();
-        self.get_iter(
-            COLUMN_BLOCK_BODY,
-            IteratorMode::From(prefix, Direction::Forward),
-        )
-        .take_while(|(key, _)| key.starts_with(prefix))
-        .map(|(_key, value)| {
-            let reader = packed::TransactionViewReader::from_slice_should_be_ok(value.as_ref());
-            Into::<TransactionView>::into(reader)
-        })
-        .collect()
+        let body: Vec<TransactionView> = self
+            .get_iter(
+                COLUMN_BLOCK_BODY,
+                IteratorMode::From(prefix, Direction::Forward),
+            )
+            .take_while(|(key, _)| key.starts_with(prefix))
+            .map(|(_key, value)| {
+                let reader = packed::TransactionViewReader::from_slice_should_be_ok(value.as_ref());
+                Into::<TransactionView>::into(reader)
+            })
+            .collect();
+        if body.is_empty()
+            && let Some(block) = self.get_frozen_block(hash)
+        {
+            return block.transactions();
+        }
+        body
     }
 
     /// Get unfrozen block from ky-store with given hash
@@ -165,6 +190,13 @@ pub trait ChainStore: Send + Sync + Sized {
                 reader.hash().to_entity()
             })
             .collect();
+        let ret = if ret.is_empty()
+            && let Some(block) = self.get_frozen_block(hash)
+        {
+            block.tx_hashes().to_vec()
+        } else {
+            ret
+        };
 
         if let Some(cache) = self.cache() {
             cache.block_tx_hashes.lock().put(hash.clone(), ret.clone());
@@ -189,6 +221,10 @@ pub trait ChainStore: Send + Sync + Sized {
             .map(|slice| {
                 packed::ProposalShortIdVecReader::from_slice_should_be_ok(slice.as_ref())
                     .to_entity()
+            })
+            .or_else(|| {
+                self.get_frozen_block(hash)
+                    .map(|block| block.data().proposals())
             });
 
         if let Some(cache) = self.cache() {
@@ -208,10 +244,14 @@ pub trait ChainStore: Send + Sync + Sized {
             return Some(data.clone());
         };
 
-        let ret = self.get(COLUMN_BLOCK_UNCLE, hash.as_slice()).map(|slice| {
-            let reader = packed::UncleBlockVecViewReader::from_slice_should_be_ok(slice.as_ref());
-            Into::<UncleBlockVecView>::into(reader)
-        });
+        let ret = self
+            .get(COLUMN_BLOCK_UNCLE, hash.as_slice())
+            .map(|slice| {
+                let reader =
+                    packed::UncleBlockVecViewReader::from_slice_should_be_ok(slice.as_ref());
+                Into::<UncleBlockVecView>::into(reader)
+            })
+            .or_else(|| self.get_frozen_block(hash).map(|block| block.uncles()));
 
         if let Some(cache) = self.cache() {
             ret.inspect(|uncles| {
@@ -232,7 +272,11 @@ pub trait ChainStore: Send + Sync + Sized {
 
         let ret = self
             .get(COLUMN_BLOCK_EXTENSION, hash.as_slice())
-            .map(|slice| packed::BytesReader::from_slice_should_be_ok(slice.as_ref()).to_entity());
+            .map(|slice| packed::BytesReader::from_slice_should_be_ok(slice.as_ref()).to_entity())
+            .or_else(|| {
+                self.get_frozen_block(hash)
+                    .and_then(|block| block.extension())
+            });
 
         if let Some(cache) = self.cache() {
             cache.block_extensions.lock().put(hash.clone(), ret.clone());
@@ -465,10 +509,15 @@ pub trait ChainStore: Send + Sync + Sized {
         let key = packed::TransactionKey::new_builder()
             .block_hash(hash.to_owned())
             .build();
-        self.get(COLUMN_BLOCK_BODY, key.as_slice()).map(|slice| {
-            let reader = packed::TransactionViewReader::from_slice_should_be_ok(slice.as_ref());
-            Into::<TransactionView>::into(reader)
-        })
+        self.get(COLUMN_BLOCK_BODY, key.as_slice())
+            .map(|slice| {
+                let reader = packed::TransactionViewReader::from_slice_should_be_ok(slice.as_ref());
+                Into::<TransactionView>::into(reader)
+            })
+            .or_else(|| {
+                self.get_frozen_block(hash)
+                    .and_then(|block| block.transaction(0))
+            })
     }
 
     /// Gets latest built filter data block hash
@@ -491,6 +540,9 @@ pub trait ChainStore: Send + Sync + Sized {
 
     /// Gets block bytes by block hash
     fn get_packed_block(&self, hash: &packed::Byte32) -> Option<packed::Block> {
+        if let Some(block) = self.get_frozen_block(hash) {
+            return Some(block.data());
+        }
         let header = self
             .get(COLUMN_BLOCK_HEADER, hash.as_slice())
             .map(|slice| {
